@@ -157,7 +157,7 @@ func (sc *NCSession) fitTimeouts() {
 // Deadline bounds the whole workload in fake time.
 func (sc *NCSession) Deadline() time.Duration {
 	// short: the RPC reply poller runs every 5us, so waiting out a long fake deadline is expensive
-	d := 3*sc.connTimeout() + 600*time.Millisecond
+	d := 3*sc.connTimeout() + 600*time.Millisecond + time.Duration(sc.F.WriteSlowNS)
 	for i := range sc.Ops {
 		d += sc.effTimeout(&sc.Ops[i]) + Micro(sc.Ops[i].IdleUS) + Micro(sc.Ops[i].HoldWaitUS)
 	}
